@@ -44,6 +44,22 @@ fn main() {
             let spec: ShardSpec = serde_json::from_value(doc["spec"].clone()).expect("spec");
             let hist: Vec<String> = serde_json::from_value(doc["history"].clone()).expect("history");
             let quiet = args.iter().any(|a| a == "--quiet");
+            if doc["kind"] == "diff" {
+                // profile differential: run the history in the chk and the rel binary and compare
+                let mut outs = vec![];
+                for prof in ["chk", "rel"] {
+                    let o = std::process::Command::new(orch::bin_for(prof)).arg("outcome").arg(&args[2]).output().expect("run outcome");
+                    outs.push(String::from_utf8_lossy(&o.stdout).trim().to_string());
+                }
+                println!("chk: {}\nrel: {}", outs[0], outs[1]);
+                if outs[0] != outs[1] {
+                    println!("replay: outcomes differ between build profiles");
+                    println!("SIG {}", doc["signature"].as_str().unwrap_or(""));
+                    std::process::exit(1);
+                }
+                println!("replay: no violation");
+                std::process::exit(0);
+            }
             // if we are not the binary for the spec's profile, re-exec the right one
             let want = orch::bin_for(&spec.profile);
             let me = std::env::current_exe().ok();
@@ -57,6 +73,15 @@ fn main() {
             }
             let code = plan::replay_any(&spec, &hist, quiet);
             std::process::exit(code);
+        }
+        "outcome" => {
+            let doc: serde_json::Value = serde_json::from_str(&std::fs::read_to_string(&args[2]).expect("replay file")).expect("replay json");
+            let spec: ShardSpec = serde_json::from_value(doc["spec"].clone()).expect("spec");
+            let hist: Vec<String> = serde_json::from_value(doc["history"].clone()).expect("history");
+            watchdog();
+            // full per-step observation transcript
+            let ops = shard::strings_to_ops(&hist).expect("ops");
+            println!("OUTCOME {} | {}", plan::outcome_of(&spec, &hist), plan::transcript_of(&spec, &ops));
         }
         "selftest" => {
             // determinism: the same shard twice must give identical digests and counts
